@@ -296,6 +296,17 @@ def r12_3(ctx: Ctx) -> None:
                form=f"{key}: {aff}")
     ctx.ob("R12.3", HELP, func, "_adjust_features", "numbered keys covered", seen == set(firsts),
            "every numbered cross reference is renumbered", form=f"missing: {sorted(set(firsts) - seen)}")
+    # subtracting the first number gives 1..n only if the numbers of a family inside one region are consecutive; the areas of
+    # an origin-crossing region are not (the crossing area sorts first, the areas before the origin sort last)
+    by_rank = any(isinstance(c, ast.Call) and call_name(c) == "enumerate" and c.args and call_name(c.args[0]) == "sorted"
+                  for c in calls(func)) or any(last_attr(c) == "index" for c in calls(func))
+    ctx.ob("R12.3", HELP, func, "_adjust_features", "renumbering does not assume consecutive numbers", by_rank,
+           "the new number of an area is its rank among the region's areas of that kind (1..n), not its old number less the "
+           "smallest one",
+           detail="" if by_rank else "circular record of 3000 with protoclusters before, across and after the origin plus one in the "
+           "middle: the origin-crossing region holds protoclusters 1, 2 and 4 (3 is the middle one), its file is written with "
+           "protocluster_number 1, 2, 4 and protoclusters=['1','2','4'], and loading it raises 'record does not contain all "
+           "expected protoclusters'", form="n - first + 1" if not by_rank else "rank")
     for fam, getter, coll in (("first_candidate_cluster", "get_candidate_cluster_number", "region.candidate_clusters"),
                               ("first_cluster", "get_protocluster_number", "protoclusters_by_original_number"),
                               ("first_subregion", "get_subregion_number", "region.subregions")):
